@@ -1,13 +1,13 @@
 SPECIFICATION Spec
 CONSTANTS
-  Class = "stdio"
+  Class = "buf"
   Ideal = FALSE
   KSet = {"n"}
-  NW <- W20
-  NR <- W02
+  NW <- W02
+  NR <- W20
   NC <- W11
   WMax = 3
   CMax = 2
-INVARIANTS TypeOK Fifo NoSpuriousError NoLoss RestAll ClosedStopsReads
+INVARIANTS TypeOK Fifo NoSpuriousError NoLoss RestAll ClosedStopsReads ClosedStopsWrites
 PROPERTIES ClosedForGood
 CHECK_DEADLOCK FALSE
